@@ -10,6 +10,13 @@
 //! every acceptance condition of the statement.  The oracle is pure safety: it never demands
 //! that a good ACK is accepted, only that a bad one is not, and that a granted lease is not
 //! overstayed.  Lenient readings are marked `LENIENT:` below.
+//!
+//! Reference lease = min(lease option, max_lease_duration) (with a configured maximum the
+//! effective lease is the smaller one; an ACK without lease option under a cap is bounded by
+//! the cap whatever the built-in default is; without cap and without option nothing is
+//! demanded).  Dimensions: retry configuration, max_lease_duration {None, 30 s (below the 120 s
+//! default), 300/600 s (above)}, ignore_naks, device back-pressure; server messages deviate
+//! from a well-formed base in one dimension (all values) or in selected pairs, see `alphabet`.
 
 use crate::core::*;
 use crate::sim::*;
@@ -136,6 +143,9 @@ pub enum T12 {
     Tight,
     /// the RFC defaults spelled out: (L/2, 7L/8)
     Spelled,
+    /// explicit inconsistent/edge pairs: T1 == 0 with a proper T2: (0, L/2); T2 == lease: (L/2, L)
+    T1Zero,
+    T2EqLease,
     /// explicit pairs around a max_lease_duration cap c (only in configurations with a cap):
     /// (c-1, c), (c, c+1), (c+1, L-1) — valid for a server lease L > c+2, not for the capped one
     CapLo(u32),
@@ -309,6 +319,8 @@ fn t12_values(t: T12, lease: Option<u32>) -> (Option<u32>, Option<u32>) {
         T12::Valid => (Some(l / 4), Some(l / 2)),
         T12::Tight => (Some(l.saturating_sub(2)), Some(l.saturating_sub(1))),
         T12::Spelled => (Some(l / 2), Some((l as u64 * 7 / 8) as u32)),
+        T12::T1Zero => (Some(0), Some(l / 2)),
+        T12::T2EqLease => (Some(l / 2), Some(l)),
         T12::CapLo(c) => (Some(c.saturating_sub(1)), Some(c)),
         T12::CapAt(c) => (Some(c), Some(c.saturating_add(1))),
         T12::CapHi(c) => (Some(c.saturating_add(1)), Some(l.saturating_sub(1))),
@@ -316,7 +328,7 @@ fn t12_values(t: T12, lease: Option<u32>) -> (Option<u32>, Option<u32>) {
 }
 
 const LEASES: [Option<u32>; 7] = [None, Some(0), Some(1), Some(2), Some(60), Some(600), Some(u32::MAX)];
-const T12S: [T12; 10] = [
+const T12S: [T12; 12] = [
     T12::Absent,
     T12::Zero,
     T12::Equal,
@@ -327,6 +339,8 @@ const T12S: [T12; 10] = [
     T12::Valid,
     T12::Tight,
     T12::Spelled,
+    T12::T1Zero,
+    T12::T2EqLease,
 ];
 
 /// `cap` = the configuration's max_lease_duration: adds a control lease just below the cap and
@@ -471,9 +485,10 @@ pub enum Ev {
     /// advance the clock to `Interface::poll_at` (or poll again now if that is not in the future)
     ToPollAt,
     Plus1s,
-    /// advance to (expiry of the lease granted by the most recent acceptable ACK) + n us
+    /// advance to (expiry of the lease granted by the most recent acceptable ACK, capped with
+    /// max_lease_duration) + n us
     ToExpiry(i64),
-    /// same for the expiry after capping with max_lease_duration (only when that differs)
+    /// same for the server's uncapped lease option (only when that differs)
     ToCappedExpiry(i64),
     /// silent DHCP server: follow poll_at until the client gives the address up
     /// (bool: ARP requests for the server are answered)
@@ -492,7 +507,7 @@ impl std::fmt::Debug for Ev {
             Ev::ToPollAt => write!(f, "advance-to-poll_at"),
             Ev::Plus1s => write!(f, "advance+1s"),
             Ev::ToExpiry(d) => write!(f, "advance-to-expiry{:+}us", d),
-            Ev::ToCappedExpiry(d) => write!(f, "advance-to-capped-expiry{:+}us", d),
+            Ev::ToCappedExpiry(d) => write!(f, "advance-to-uncapped-expiry{:+}us", d),
             Ev::RunSilent(arp) => write!(f, "run-silent-server(arp-answered={})", arp),
             Ev::BlockTx => write!(f, "block-tx"),
             Ev::UnblockTx => write!(f, "unblock-tx"),
@@ -596,13 +611,14 @@ fn tsec(us: i64) -> String {
 
 #[derive(Clone, Debug)]
 struct Lease {
-    /// expiry per the statement: arrival + lease option (None: the ACK carried no lease option.
-    /// LENIENT: the statement speaks of "the lease time granted by the ACK"; without the option
-    /// nothing is granted explicitly (the code documents a 120 s default), so no expiry is demanded)
+    /// reference expiry: arrival + min(lease option, max_lease_duration).  With a configured
+    /// maximum the effective lease is the smaller of the two; an ACK without lease option is then
+    /// bounded by the cap alone (LENIENT: whatever the built-in default is, min(default, cap) <=
+    /// cap).  None = no lease option and no cap (LENIENT: nothing granted explicitly, the 120 s
+    /// default is documented but not part of the statement: no expiry demanded).
     e_stmt: Option<i64>,
-    /// arrival + min(lease option, max_lease_duration): only used to AIM time events at the
-    /// instants where the implementation's own clock should fire, never in a verdict.
-    /// LENIENT: honouring max_lease_duration is not part of the statement.
+    /// arrival + lease option where that differs (a cap is in force): only used to AIM time
+    /// events at the instant the server's own number would suggest, never in a verdict.
     e_capped: Option<i64>,
     /// granted seconds after capping (attempt clause threshold)
     secs_capped: Option<u64>,
@@ -901,8 +917,13 @@ impl DhcpH {
             let renewed = self.m.reported.is_some();
             let (t1, t2) = t12_values(s.t12, s.lease);
             let fresh = Lease {
-                e_stmt: s.lease.map(|l| self.now + l as i64 * US),
-                e_capped: secs_capped.map(|l| self.now + l as i64 * US),
+                e_stmt: match (s.lease, self.cfg.max_lease) {
+                    (Some(l), Some(c)) => Some(self.now + l.min(c) as i64 * US),
+                    (Some(l), None) => Some(self.now + l as i64 * US),
+                    (None, Some(c)) => Some(self.now + c as i64 * US),
+                    (None, None) => None,
+                },
+                e_capped: s.lease.map(|l| self.now + l as i64 * US),
                 secs_capped,
                 order_demanded: t1.is_some() == t2.is_some(),
                 t2only: t1.is_none() && t2.is_some(),
@@ -1283,8 +1304,11 @@ impl DhcpH {
         }
         let pa = self.poll_at();
         if let Some(l) = self.m.lease.as_mut() {
+            // every event ends with a poll at `now`, so a poll_at that is not in the future
+            // means the client had its chance at this instant and asks for nothing later:
+            // only jumping over a FUTURE wake-up (or having none) makes the lease unfaithful
             match pa {
-                Some(p) if t <= p.max(self.now) => {}
+                Some(p) if p <= self.now || t <= p => {}
                 _ => l.faithful = false,
             }
         }
@@ -1669,21 +1693,22 @@ pub fn run(tier: Tier) -> i32 {
     rep.assumptions.push("stimulus frames are built with smoltcp::wire emitters (trusted for building, not as oracle); what the client sends is read with an independent parser (RFC 826/951/2131 offsets); a panic inside Interface::poll is isolated with catch_unwind and reported as C18/panic/<file>".into());
     rep.assumptions.push("one dhcpv4::Socket on one Ethernet interface; the harness applies Configured/Deconfigured to the interface exactly like examples/dhcp_client.rs; device back-pressure (transmit() refusing every frame between a block-tx and an unblock-tx event) is an event dimension in the configurations marked bp: true, elsewhere the device never refuses".into());
     rep.assumptions.push("server messages deviate from a well-formed base message in ONE dimension (all values) or in the pair lease x T1/T2 (all values) / unicast x tiny lease; yiaddr values: 192.168.1.42, 255.255.255.255, 0.0.0.0, 224.0.0.1 (subnet-directed broadcast is read as 'unicast', lenient)".into());
-    rep.assumptions.push("lenient readings: the IPv4 source of a server frame and a missing END option are outside the statement, so an otherwise acceptable ACK from a source other than the server, or cut right after its last option, may be honoured or ignored; if honoured the lease clock uses the values IN the message (Configured after it is legitimate; arriving during a lease, the later of the two expiries counts and order/attempt clauses are dropped for that lease); expiry = arrival + lease OPTION (max_lease_duration only aims time events); ACK without lease option grants nothing checkable; renew-before-rebind only demanded when the ACK carried both or none of T1/T2; 'renew and rebind attempted before expiry' only for silent server, clock following poll_at, lease (after the max_lease cap) >= 600 s; weak form 'some renewal-type REQUEST before the address is given up' for capped lease >= 10 s; an ARP request for the server counts as renewal attempt; order/attempt verdicts only for leases during which the device accepted frames all the time, solicitation bound only demanded while the device accepts frames (reference restarts at unblock-tx); back-off bound = max(discover_timeout, initial_request_timeout << ((retries-1)/2)) + 1 s + 1 ms".into());
+    rep.assumptions.push("reference lease = min(lease option, max_lease_duration); an ACK without lease option is bounded by the cap if one is configured, else nothing is demanded; lenient readings: the IPv4 source of a server frame and a missing END option are outside the statement, so an otherwise acceptable ACK from a source other than the server, or cut right after its last option, may be honoured or ignored; if honoured the lease clock uses the values IN the message (Configured after it is legitimate; arriving during a lease, the later of the two expiries counts and order/attempt clauses are dropped for that lease); ACK without lease option and without cap grants nothing checkable; renew-before-rebind only demanded when the ACK carried both or none of T1/T2; 'renew and rebind attempted before expiry' only for silent server, clock following poll_at, lease (after the max_lease cap) >= 600 s; weak form 'some renewal-type REQUEST before the address is given up' for capped lease >= 10 s; an ARP request for the server counts as renewal attempt; order/attempt verdicts only for leases during which the device accepted frames all the time, solicitation bound only demanded while the device accepts frames (reference restarts at unblock-tx); back-off bound = max(discover_timeout, initial_request_timeout << ((retries-1)/2)) + 1 s + 1 ms".into());
     rep.assumptions.push("state merging: instants relative to now (all <= now equivalent), xid value / PRNG / IPv4 ident stripped (only relations between xids matter, kept in the model image)".into());
 
-    // quick: full alphabet d<=5 on the two extreme configurations, d<=4 on five more (other
-    // retry/cap mixes, ignore_naks, back-pressure, cap 600), singles-only alphabet d<=6 (d<=5
-    // with back-pressure); thorough: the full 2x2x2 configuration cube (d<=6; d<=5 with
+    // quick: full alphabet d<=4 on seven configurations (retry/cap mixes with caps None / 30 s /
+    // 600 s, ignore_naks, back-pressure), singles-only alphabet d<=6 on the two extreme
+    // configurations (d<=5 with back-pressure); thorough: the full 2x2x2 configuration cube (d<=6; d<=5 with
     // ignore_naks), singles-only d<=8, back-pressure d<=5 (singles d<=7), caps 600/300 d<=5.
     // (The IP-source dimension multiplies the bound states by the four possible server addresses,
     // the optional-ACK variants add an "order/attempt clauses dropped" copy of every lease state.)
     let mut cfgs: Vec<(Cfg, usize)> = vec![];
     if tier == Tier::Quick {
-        cfgs.push((Cfg { retry_short: false, max_lease: None, ignore_naks: false, alpha: 0, bp: false }, 5));
-        cfgs.push((Cfg { retry_short: true, max_lease: Some(30), ignore_naks: false, alpha: 0, bp: false }, 5));
-        // one level deeper with the singles-only alphabet
+        cfgs.push((Cfg { retry_short: false, max_lease: None, ignore_naks: false, alpha: 0, bp: false }, 4));
+        cfgs.push((Cfg { retry_short: true, max_lease: Some(30), ignore_naks: false, alpha: 0, bp: false }, 4));
+        // two levels deeper with the singles-only alphabet
         cfgs.push((Cfg { retry_short: false, max_lease: None, ignore_naks: false, alpha: 1, bp: false }, 6));
+        cfgs.push((Cfg { retry_short: true, max_lease: Some(30), ignore_naks: false, alpha: 1, bp: false }, 6));
         cfgs.push((Cfg { retry_short: false, max_lease: Some(30), ignore_naks: false, alpha: 0, bp: false }, 4));
         cfgs.push((Cfg { retry_short: true, max_lease: None, ignore_naks: false, alpha: 0, bp: false }, 4));
         cfgs.push((Cfg { retry_short: false, max_lease: None, ignore_naks: true, alpha: 0, bp: false }, 4));
@@ -1746,7 +1771,7 @@ pub fn run(tier: Tier) -> i32 {
     *LABELS.lock().unwrap() = None;
     rep.cov("per_configuration", json!(per_cfg));
     rep.cov("alphabet", json!(alpha_sizes));
-    rep.cov("rule", json!("BFS over choice histories replayed on a fresh real Interface+dhcpv4::Socket; from every distinct state every enabled event: each server message of the alphabet (built from the latest client message on the wire; types OFFER/ACK/NAK/DISCOVER/INFORM/REQUEST; xid latest/earlier/foreign; chaddr own/foreign; server-id present/absent; mask /24, 255.0.255.0, absent; yiaddr unicast/broadcast/0/multicast; lease absent,0,1,2,60,600,2^32-1; T1/T2 absent,0/0,equal,inverted,>lease,T1 only,T2 only,valid,tight,(L/2,7L/8) spelled out, and in max-lease configurations (cap-1,cap),(cap,cap+1),(cap+1,L-1) plus a control lease cap-10; router/DNS present/absent; broadcast/unicast delivery; datagram cut right after the last option (no END, no padding) with lease / T1 / T2 / server-id / mask / router as that last option, for OFFER and ACK, the lease-last ACK with every lease value; IPv4 source of the frame = server / 0.0.0.0 / another host of the subnet / an off-subnet host, for OFFER and ACK singly and paired with unicast delivery, no-router, lease 60), 4 two-frame bursts in ONE poll, ARP reply, clock to poll_at, +1 s, expiry-1us/expiry/expiry+1us (statement expiry and max_lease-capped expiry), silent-server run following poll_at to the end of the lease (ARP answered / not), block-tx / unblock-tx (bp configurations). One Interface::poll + drain of Socket::poll() per event; all oracles after every poll."));
+    rep.cov("rule", json!("BFS over choice histories replayed on a fresh real Interface+dhcpv4::Socket; from every distinct state every enabled event: each server message of the alphabet (built from the latest client message on the wire; types OFFER/ACK/NAK/DISCOVER/INFORM/REQUEST; xid latest/earlier/foreign; chaddr own/foreign; server-id present/absent; mask /24, 255.0.255.0, absent; yiaddr unicast/broadcast/0/multicast; lease absent,0,1,2,60,600,2^32-1; T1/T2 absent,0/0,equal,inverted (T2<T1<lease),>lease,T1 only,T2 only,valid,tight,(L/2,7L/8) spelled out,(0,L/2),(L/2,L), and in max-lease configurations (cap-1,cap),(cap,cap+1),(cap+1,L-1) plus a control lease cap-10; router/DNS present/absent; broadcast/unicast delivery; datagram cut right after the last option (no END, no padding) with lease / T1 / T2 / server-id / mask / router as that last option, for OFFER and ACK, the lease-last ACK with every lease value; IPv4 source of the frame = server / 0.0.0.0 / another host of the subnet / an off-subnet host, for OFFER and ACK singly and paired with unicast delivery, no-router, lease 60), 4 two-frame bursts in ONE poll, ARP reply, clock to poll_at, +1 s, expiry-1us/expiry/expiry+1us (reference expiry = min(option, cap) and, where different, the server's uncapped option), silent-server run following poll_at to the end of the lease (ARP answered / not), block-tx / unblock-tx (bp configurations). One Interface::poll + drain of Socket::poll() per event; all oracles after every poll."));
 
     rep.cov("caps", json!(format!("the silent-server macro event stops after {} polls (enough for a complete 600 s lease with the ARP request repeated every second); runs that hit the cap are counted as run_silent_capped (leases of 2^32-1 s) and make no attempt verdict; no other cap", RUN_CAP)));
     // narrated samples: a full lease life cycle under each retry configuration
